@@ -1,0 +1,17 @@
+//go:build verif
+
+package batchers
+
+// Verification hooks (build tag `verif` only): the status bookkeeping of a Batcher – the part of it the
+// render goroutine reads through StatusString while reader goroutines update it – driven directly, without
+// files, so that the harness can run a prescribed sequence of updates against concurrent StatusString calls.
+
+func VerifNewBatcher() *Batcher { return newBatcher(1) }
+
+func (s *Batcher) VerifSetSourceCount(n int) { s.setSourceCount(n) }
+
+func (s *Batcher) VerifStartFileReading(source string) { s.startFileReading(source) }
+
+func (s *Batcher) VerifStopFileReading(source string) { s.stopFileReading(source) }
+
+func (s *Batcher) VerifIncErrors() { s.incErrors() }
